@@ -52,3 +52,12 @@ def shared_exception_instance(c, problems):
     other_r = sorted(str([e["path"], e["locations"]]) for e in c.real["errors"] if e["message"] not in msgs)
     other_m = sorted(str([e["path"], sorted([l["line"], l["column"]] for l in e["locations"])]) for e in c.mod["errors"] if e["message"] not in msgs)
     return set(other_r) == set(other_m) and len([e for e in c.real["errors"] if e["message"] in msgs]) == len([e for e in c.mod["errors"] if e["message"] in msgs])
+
+
+def null_condition_variable(c, problems):
+    """a selection carries @skip / @include whose `if` is a (nullable, defaulted) variable given an explicit null, and every
+    complaint is about that selection having vanished (missing response key / resolver never called)"""
+    names = set(re.findall(r"@(?:skip|include)\(if: \$(\w+)\)", c.query if isinstance(c.query, str) else ""))
+    vs = c.variables if isinstance(c.variables, dict) else {}
+    if not any(n in vs and vs[n] is None for n in names): return False
+    return bool(problems) and all(("!= selected" in p) or ("called 0 times" in p) for p in problems)
